@@ -141,3 +141,18 @@ Proof. rewrite firstn_app, Nat.sub_diag, firstn_all. cbn [firstn]. apply app_nil
 
 Lemma skipn_app_exact {A} (a b : list A) : skipn (length a) (a ++ b) = b.
 Proof. rewrite skipn_app, Nat.sub_diag, skipn_all. reflexivity. Qed.
+
+Lemma bytes_ok_app a b : bytes_ok (a ++ b) = bytes_ok a && bytes_ok b.
+Proof. unfold bytes_ok. apply forallb_app. Qed.
+Lemma bytes_ok_firstn n l : bytes_ok l = true -> bytes_ok (firstn n l) = true.
+Proof.
+  revert n. induction l as [|b l IH]; intros n H; [destruct n; reflexivity|].
+  destruct n as [|n]; [reflexivity|]. unfold bytes_ok in *. cbn [firstn forallb] in *.
+  apply andb_true_iff in H as [Hb Hl]. rewrite Hb. cbn [andb]. apply IH, Hl.
+Qed.
+Lemma bytes_ok_skipn n l : bytes_ok l = true -> bytes_ok (skipn n l) = true.
+Proof.
+  revert n. induction l as [|b l IH]; intros n H; [destruct n; reflexivity|].
+  destruct n as [|n]; [exact H|]. unfold bytes_ok in *. cbn [skipn forallb] in *.
+  apply andb_true_iff in H as [Hb Hl]. apply IH, Hl.
+Qed.
